@@ -53,7 +53,7 @@ func (p *plainByteReader) ReadByte() (byte, error) {
 	return c, nil
 }
 
-var c05Sources = []string{"bufio16", "bufio17", "bufio64", "bufio4095", "bufio4096", "bufio4097", "bufio65536", "bytes.Reader", "bytes.Buffer", "strings.Reader", "custom-ByteReader"}
+var c05Sources = []string{"bufio16", "bufio17", "bufio64", "bufio4095", "bufio4096", "bufio4097", "bufio65536", "bufio65537", "bufio131072", "bufio1048576", "bytes.Reader", "bytes.Buffer", "strings.Reader", "custom-ByteReader"}
 
 func c05Source(kind string, data []byte) io.Reader {
 	d := append([]byte(nil), data...)
@@ -81,7 +81,10 @@ func (c05) Run(c *mon.Ctx, i int) {
 	switch wrapper {
 	case "flate":
 		var vs *ValidStream
-		if i%8 < 4 {
+		if i%16 == 9 {
+			st, plain, d := synth.WindowEdge(r, r.Intn(6), r.Range(1, 4), r.Pick(0, 0, 1), true, false)
+			vs = &ValidStream{S: st, Plain: plain, Desc: "synth " + d}
+		} else if i%8 < 4 {
 			// synthesised: final block of each type, final EOB ending at varying bit positions
 			s := synth.NewStream(r)
 			if r.Bool() {
@@ -150,6 +153,10 @@ func (c05) Run(c *mon.Ctx, i int) {
 		}
 	default:
 		T = r.Bytes(r.Range(1, 300))
+	}
+	if i%5 == 4 {
+		// a long tail: buffers larger than 64 KiB really hold more than that
+		T = r.Bytes(r.Range(70000, 300000))
 	}
 	all := append(append([]byte(nil), container...), T...)
 	base := map[string]interface{}{"wrapper": wrapper, "container": desc, "container_len": len(container), "container_sha": mon.Sha(container), "suffix_len": len(T), "payload_len": len(payload)}
